@@ -59,6 +59,13 @@ func (r *Rand) Int63() int64     { return int64(r.Uint64() >> 1) }
 func (r *Rand) Float64() float64 { return float64(r.Uint64()>>11) / (1 << 53) }
 func (r *Rand) Bool() bool       { return r.Uint64()&1 == 1 }
 
+// Patience is the generous wall-clock allowance for operations that must simply succeed on
+// healthy stores (building a scenario, a query, a merge, a graceful Stop). It is a watchdog, not
+// a verdict threshold: on a machine loaded with sixteen race-instrumented children such an
+// operation can take minutes; a hung engine is decided by the stuck detectors and the per-child
+// watchdog, never by this timeout.
+const Patience = 15 * time.Minute
+
 // Perm returns a PRNG permutation of 0..n-1.
 func (r *Rand) Perm(n int) []int {
 	p := make([]int, n)
